@@ -53,7 +53,9 @@ fn main() {
             "<non-string panic>".to_string()
         };
         let loc = info.location().map(|l| format!("{}:{}", l.file(), l.line())).unwrap_or_default();
-        println!("OUTCOME: panic {} @ {}", msg.replace('\n', " "), loc);
+        // panics raised in this crate's own sources are harness assertions
+        let tag = if loc.starts_with("src/") { "VERIF: " } else { "" };
+        println!("OUTCOME: panic {}{} @ {}", tag, msg.replace('\n', " "), loc);
     }));
     let r = panic::catch_unwind(f);
     for c in mb2_harness::nd::covers() {
